@@ -42,7 +42,7 @@ package neo3_state_manager
 //@   ensures err == nil ==> (r0 == nil <==> Store[svKey("stateValidatorRemove", removeID)] == None)
 
 //@ func ApproveRegisterStateValidator
-//@   property C33, C18
+//@   property C33, C18, C32
 //@   mode abstract
 //@   requires native != nil && native.tx != nil
 //@   modifies Store
@@ -59,7 +59,7 @@ package neo3_state_manager
 //@   ensures[c33-onlyapproved] !fired ==> Store[svListKey()] == old(Store)[svListKey()]
 
 //@ func ApproveRemoveStateValidator
-//@   property C33, C18
+//@   property C33, C18, C32
 //@   mode abstract
 //@   requires native != nil && native.tx != nil
 //@   modifies Store
